@@ -72,8 +72,19 @@ type Contract struct {
 	Ghost      []string
 	Terminates bool
 	Bytes      bool // model bulk copies (append/copy of slices) with quantified content axioms
+	After      []*AfterSpec
 	Uses       []string // axioms assumed at entry
 	Splits     []Clause // case split: every obligation is discharged once per case; the cases must cover the precondition
+}
+
+// AfterSpec: an assumed contract for one call site (trusted; reported in the evidence).
+type AfterSpec struct {
+	Pattern    string // call expression text with all white space removed
+	Text       string
+	Assigns    []string
+	HasAssigns bool
+	Ensures    []Clause
+	Used       bool
 }
 
 type Pred struct {
@@ -118,7 +129,7 @@ var labelRe = regexp.MustCompile(`^\[([A-Za-z0-9_.:\-]+)\]\s*`)
 
 var clauseKW = map[string]bool{"props": true, "requires": true, "ensures": true, "assigns": true, "canary": true,
 	"loop": true, "decreases": true, "nooverflow": true, "assumed": true, "inline": true, "let": true, "panics_ok": true,
-	"params": true, "ghost": true, "terminates": true, "bytes": true, "split": true, "uses": true}
+	"params": true, "ghost": true, "terminates": true, "bytes": true, "split": true, "uses": true, "after": true}
 
 func fullName(pkgPath, key string) string {
 	if strings.Contains(key, "/") || pkgPath == "" {
@@ -337,6 +348,45 @@ func (c *Contract) addClause(kw, text string, line int) error {
 		c.Params = strings.Fields(strings.ReplaceAll(text, ",", " "))
 	case "ghost":
 		c.Ghost = append(c.Ghost, text)
+	case "after":
+		// after "<call expression text>" assigns a, b | after "<call text>" ensures <spec>
+		// An assumed fact about one call site, keyed by the exact source text of the call.
+		if !strings.HasPrefix(text, "\"") {
+			return fmt.Errorf("after needs a quoted call expression")
+		}
+		j := strings.Index(text[1:], "\"")
+		if j < 0 {
+			return fmt.Errorf("unterminated call pattern")
+		}
+		pat := strings.Join(strings.Fields(text[1:j+1]), "")
+		rest := strings.TrimSpace(text[j+2:])
+		var as *AfterSpec
+		for _, a := range c.After {
+			if a.Pattern == pat {
+				as = a
+			}
+		}
+		if as == nil {
+			as = &AfterSpec{Pattern: pat, Text: text[1 : j+1]}
+			c.After = append(c.After, as)
+		}
+		switch {
+		case strings.HasPrefix(rest, "assigns"):
+			as.HasAssigns = true
+			for _, a := range splitTop(strings.TrimSpace(rest[7:]), ',') {
+				if a = strings.TrimSpace(a); a != "" && a != "nothing" {
+					as.Assigns = append(as.Assigns, a)
+				}
+			}
+		case strings.HasPrefix(rest, "ensures"):
+			cl, err := c.mkClause(strings.TrimSpace(rest[7:]), line)
+			if err != nil {
+				return err
+			}
+			as.Ensures = append(as.Ensures, cl)
+		default:
+			return fmt.Errorf("after: want assigns or ensures")
+		}
 	case "uses":
 		c.Uses = append(c.Uses, strings.Fields(strings.ReplaceAll(text, ",", " "))...)
 	case "split":
